@@ -75,7 +75,23 @@ func runC07(p *Prog, l *Ledger) {
 				pr := &prover{p: p, pa: pa, step: last - 1, entry: af.Entry}
 				c04Axioms(p, pr, af.A, pa, l)
 				if notAppLimited(pr, af, last) == 0 {
-					return true
+					// the sample left before the demand gate was decided either way: that is input validation (a parameter
+					// tested against a constant: rtt <= 0) - a test against the algorithm's own state (a remembered
+					// time stamp, a counter) can discard every healthy saturated sample from then on
+					if !appLimited(pr, af, last) {
+						for _, b := range pa.Blocks[:len(pa.Blocks)-1] {
+							iff, ok := b.Instrs[len(b.Instrs)-1].(*ssa.If)
+							if !ok {
+								continue
+							}
+							if !c07InputTest(iff.Cond, 4) {
+								n5++
+								bad5 = append(bad5, fmt.Sprintf("%s: a drop-free sample is discarded before the demand gate on a test of the algorithm's state (%s): %s", p.At(iff), valueString(iff.Cond), joinWitness(p.DescribePath(pa))))
+								break
+							}
+						}
+					}
+					return len(bad5) < 2
 				}
 				n5++
 				lowers, uppers := map[ssa.Value]bool{}, map[ssa.Value]bool{}
@@ -274,4 +290,17 @@ func c07GateInSameSection(p *Prog, pa *Path, af *algoFn, store ssa.Instruction) 
 		return true
 	})
 	return why
+}
+
+// c07InputTest: v is a constant, a parameter of the sample, or arithmetic over those - what input validation looks at.
+func c07InputTest(v ssa.Value, depth int) bool {
+	switch x := strip(v, true).(type) {
+	case *ssa.Const, *ssa.Parameter:
+		return true
+	case *ssa.BinOp:
+		return depth > 0 && c07InputTest(x.X, depth-1) && c07InputTest(x.Y, depth-1)
+	case *ssa.UnOp:
+		return depth > 0 && x.Op != token.MUL && x.Op != token.ARROW && c07InputTest(x.X, depth-1)
+	}
+	return false
 }
